@@ -50,6 +50,8 @@ def _always_returns(stmts):
         return True
     if isinstance(last, ast.If):
         return bool(last.orelse) and _always_returns(last.body) and _always_returns(last.orelse)
+    if isinstance(last, ast.Try) and not last.finalbody and not last.orelse and last.handlers:
+        return _always_returns(last.body) and all(_always_returns(h.body) for h in last.handlers)
     return False
 
 
@@ -91,6 +93,16 @@ def _single_exit(stmts, ret):
             handlers = [ast.copy_location(ast.ExceptHandler(type=h.type, name=h.name, body=_single_exit(h.body, ret)), h) for h in st.handlers]
             new = ast.Try(body=st.body, handlers=handlers, orelse=_single_exit(list(st.orelse) + list(rest), ret), finalbody=[])
             out.append(ast.copy_location(new, st))
+            return out
+        if isinstance(st, ast.Try) and st.body and isinstance(st.body[-1], ast.Return) and not _contains_return(st.body[:-1]) and not st.orelse and \
+                not st.finalbody and st.handlers and all(_always_returns(h.body) or not _contains_return(h.body) for h in st.handlers) and \
+                (not rest or all(_always_returns(h.body) for h in st.handlers)):
+            # `try: ...; return E` as the last thing the function does (what follows is reached from no path, or there is
+            # nothing): binding the result cannot raise, so `ret = E` inside the try is the same
+            body = list(st.body[:-1]) + _single_exit([st.body[-1]], ret)
+            handlers = [ast.copy_location(ast.ExceptHandler(type=h.type, name=h.name, body=_single_exit(h.body, ret) if _contains_return(h.body) else h.body), h)
+                        for h in st.handlers]
+            out.append(ast.copy_location(ast.Try(body=body, handlers=handlers, orelse=[], finalbody=[]), st))
             return out
         if isinstance(st, (ast.For, ast.While, ast.Try, ast.With, ast.AsyncFor, ast.AsyncWith)) and _contains_return([st]):
             raise _NotInlinable("return inside a loop / try / with")
@@ -191,11 +203,12 @@ def _yields_in_tail_position(body):
 
 
 class _Helper:
-    def __init__(self, fn, cls, gen=False):
+    def __init__(self, fn, cls, gen=False, search=False):
         self.fn = fn
         self.cls = cls
         self.name = fn.name
         self.gen = gen
+        self.search = search
         deco = [ast.unparse(d) for d in fn.decorator_list]
         self.static = deco == ["staticmethod"]
         if deco and not self.static:
@@ -235,6 +248,17 @@ class _Helper:
             if not ys or len(ys) != len(ystmts) or len(ys) > 2:
                 raise _NotInlinable("generator whose yields are not plain statements (or more than two of them)")
             self.tail_yields = _yields_in_tail_position(body)
+        elif search:
+            # "first match or None": every return but the closing one hands out a display (never None) from inside the loops
+            self.expr = None
+            tail = body[-1] if body and isinstance(body[-1], ast.Return) else None
+            if tail is not None and not (tail.value is None or (isinstance(tail.value, ast.Constant) and tail.value.value is None)):
+                raise _NotInlinable("search helper whose last return is not None")
+            inner = [x for st in body for x in ast.walk(st) if isinstance(x, ast.Return) and x is not tail]
+            if not inner or not all(isinstance(x.value, (ast.Tuple, ast.List, ast.Dict, ast.Set)) or
+                                    (isinstance(x.value, ast.Constant) and x.value.value is not None) for x in inner):
+                raise _NotInlinable("search helper returning something that may be None from its loops")
+            self.search_body = body[:-1] if tail is not None else body
         elif self.expr is None:
             _single_exit(copy.deepcopy(body), "__probe")     # raises if not inlinable
 
@@ -247,6 +271,7 @@ class Inliner:
         self.counter = 0
         self.report = []
         self.helpers = {}      # (cls or None, name) -> _Helper
+        self.search_helpers = {}  # (cls or None, name) -> _Helper(search=True): "first match or None" helpers, see search_pair
         self.gen_helpers = {}  # (cls or None, name) -> _Helper(gen=True): generator functions, dissolved into the loops over them
         self.nested = {}       # id(enclosing FunctionDef) -> {name: _Helper}: local functions that are only ever called
 
@@ -273,7 +298,7 @@ class Inliner:
             qual = (cls_ + "." if cls_ else "") + fn_.name
             if qual not in self.known:
                 self._register(fn_, cls_)
-        if not self.helpers and not self.nested and not self.gen_helpers:
+        if not self.helpers and not self.nested and not self.gen_helpers and not self.search_helpers:
             return self.tree
         for _ in range(4):
             changed = False
@@ -299,7 +324,8 @@ class Inliner:
             elif isinstance(sub, ast.Attribute):
                 refs[sub.attr] = refs.get(sub.attr, 0) + 1
         def keep(st, cls):
-            if isinstance(st, ast.FunctionDef) and ((cls, st.name) in self.helpers or (cls, st.name) in self.gen_helpers) and not refs.get(st.name):
+            if isinstance(st, ast.FunctionDef) and ((cls, st.name) in self.helpers or (cls, st.name) in self.gen_helpers or
+                                                    (cls, st.name) in self.search_helpers) and not refs.get(st.name):
                 self.report.append("%s%s inlined at every call site" % (cls + "." if cls else "", st.name))
                 return False
             return True
@@ -339,6 +365,12 @@ class Inliner:
         try:
             self.helpers[(cls, fn.name)] = _Helper(fn, cls)
         except _NotInlinable as err:
+            if "return inside a loop" in str(err):
+                try:
+                    self.search_helpers[(cls, fn.name)] = _Helper(fn, cls, search=True)
+                    return
+                except _NotInlinable:
+                    pass
             self.report.append("%s%s not inlined: %s" % (cls + "." if cls else "", fn.name, err))
 
     # -- call resolution ---------------------------------------------------
@@ -437,10 +469,59 @@ class Inliner:
         changed = [False]
         me = (cls, fn.name)
 
+        def search_pair(a, b):
+            """x = helper(args); if x is not None: BODY (BODY always leaves the function)   with helper a "first match or None"
+            search   ->   x = None; the helper's loops with `x = E; BODY` in place of each `return E`."""
+            if not (isinstance(a, ast.Assign) and len(a.targets) == 1 and isinstance(a.targets[0], ast.Name) and isinstance(a.value, ast.Call) and
+                    isinstance(b, ast.If) and not b.orelse and isinstance(b.test, ast.Compare) and len(b.test.ops) == 1 and
+                    isinstance(b.test.ops[0], ast.IsNot) and isinstance(b.test.left, ast.Name) and b.test.left.id == a.targets[0].id and
+                    isinstance(b.test.comparators[0], ast.Constant) and b.test.comparators[0].value is None and _always_returns(b.body)):
+                return None
+            f = a.value.func
+            h, recv = None, None
+            if isinstance(f, ast.Name) and (None, f.id) in self.search_helpers:
+                h = self.search_helpers[(None, f.id)]
+            elif isinstance(f, ast.Attribute) and isinstance(f.value, ast.Name) and cls is not None and (cls, f.attr) in self.search_helpers:
+                g = self.search_helpers[(cls, f.attr)]
+                if f.value.id == self_name and not g.static:
+                    h, recv = g, f.value
+                elif g.static:
+                    h = g
+            if h is None or (h.cls, h.name) == me:
+                return None
+            try:
+                prelude, subst, rename, tag = self._bind(h, a.value, recv)
+            except _NotInlinable as err:
+                self.report.append("search helper %s at line %d not inlined: %s" % (h.name, a.lineno, err))
+                return None
+            x = a.targets[0].id
+            sub = _Subst(rename, subst)
+            body = [sub.visit(copy.deepcopy(st_)) for st_ in h.search_body]
+
+            class _R(ast.NodeTransformer):
+                def visit_Return(self, n):
+                    first = ast.copy_location(ast.Assign(targets=[ast.Name(id=x, ctx=ast.Store())], value=n.value), n)
+                    return [first] + [copy.deepcopy(y) for y in b.body]
+            out = [ast.copy_location(ast.Assign(targets=[ast.Name(id=x, ctx=ast.Store())], value=ast.Constant(value=None)), a)]
+            for st_ in body:
+                r_ = _R().visit(st_)
+                out.extend(r_ if isinstance(r_, list) else [r_])
+            self.report.append("search helper %s at line %d read as the loops it was extracted from" % (h.name, a.lineno))
+            return [ast.fix_missing_locations(y) for y in prelude + out]
+
         def rewrite_block(stmts):
             out = []
-            for st in stmts:
-                out.extend(rewrite_stmt(st))
+            i = 0
+            stmts = list(stmts)
+            while i < len(stmts):
+                if self.search_helpers and i + 1 < len(stmts):
+                    sp = search_pair(stmts[i], stmts[i + 1])
+                    if sp is not None:
+                        changed[0] = True
+                        stmts[i:i + 2] = sp
+                        continue
+                out.extend(rewrite_stmt(stmts[i]))
+                i += 1
             return out
 
         def calls_in(expr_nodes):
@@ -693,7 +774,8 @@ class Inliner:
                     break
                 ast.copy_location(e, call)
                 if isinstance(st, ast.Assign) and st.value is call and isinstance(e, ast.Name) and e.id.startswith("ret_i") and \
-                        all(isinstance(x, (ast.Name, ast.Attribute, ast.Tuple, ast.List)) for t in st.targets for x in [t]) and \
+                        all(isinstance(x, (ast.Name, ast.Attribute, ast.Tuple, ast.List)) or
+                            (isinstance(x, ast.Subscript) and _attr_chain(x.value) and isinstance(x.slice, (ast.Name, ast.Constant))) for t in st.targets for x in [t]) and \
                         not any(isinstance(n, ast.Name) and n.id == e.id and isinstance(n.ctx, ast.Load) for p_ in prelude for n in ast.walk(p_)):
                     # x = helper(...): every `return v` of the helper assigns x directly (no intermediate name with several definitions)
                     retname = e.id
@@ -757,14 +839,17 @@ class Inliner:
 
         fn.body = rewrite_block(fn.body)
         # a helper whose own body was just rewritten (a helper calling a helper) is inlined with the rewritten body
-        for h in list(self.helpers.values()) + list(self.gen_helpers.values()) + [x for d in self.nested.values() for x in d.values()]:
+        for h in list(self.helpers.values()) + list(self.gen_helpers.values()) + list(self.search_helpers.values()) + \
+                [x for d in self.nested.values() for x in d.values()]:
             if h.fn is fn:
                 body = list(fn.body)
                 if body and isinstance(body[0], ast.Expr) and isinstance(body[0].value, ast.Constant) and isinstance(body[0].value.value, str):
                     body = body[1:]
                 h.body = body
                 h.locals = _stored_names(fn) | set(h.params)
-                h.expr = body[0].value if len(body) == 1 and isinstance(body[0], ast.Return) and body[0].value is not None and not h.gen else None
+                h.expr = body[0].value if len(body) == 1 and isinstance(body[0], ast.Return) and body[0].value is not None and not h.gen and not h.search else None
+                if h.search:
+                    h.search_body = body[:-1] if body and isinstance(body[-1], ast.Return) else body
         local = self.nested.get(id(fn), {})
         if local:
             still = {n.id for n in ast.walk(fn) if isinstance(n, ast.Name) and isinstance(n.ctx, ast.Load)}
